@@ -37,7 +37,7 @@ OTHER_NAMES = [b"rTRC", b"gTRC", b"bTRC", b"kTRC", b"cprt", b"chad", b"desc", b"
 
 def rule_tagsize(ctx):
     """implicit tag size: a function of the tag *name* (ISO/IEC 18181-1: 20 for the seven XYZ-type tags, else the previous size)"""
-    from ..facts import op_local, op_place, op_const_int
+    from ..facts import op_local, op_place, op_const_int, callee
     rid = "R-ICC-TAGSIZE"
     ctx.rule(rid, "decode_icc, tag list: when the command carries no explicit size, the size is 20 exactly for the tag names rXYZ, gXYZ, bXYZ, "
                   "kXYZ, wtpt, bkpt, lumi and the previous tag's size otherwise - whichever way the name was coded (shortcut code or raw "
@@ -68,40 +68,90 @@ def rule_tagsize(ctx):
                                        for bl3 in f.blocks for st3 in bl3[0])
                             if back:
                                 tsz, prev = cand, p_
-    slices = {}
-    for b, blk in enumerate(f.blocks):
-        t = blk[1]
-        if t[0] == "switch":
-            pl = op_place(t[1])
-            if pl is not None and len(pl) == 3 and pl[1] == "*" and isinstance(pl[2], list) and pl[2][0] == "[c]":
-                slices[pl[0]] = slices.get(pl[0], 0) + 1
     if tsz is None or prev is None:
         ctx.anchor_missing(rid, "the implicit tag size decision (a u32 assigned 20 / the previous size) in decode_icc")
         return
+    from ..mirutil import Defs
+    defs = Defs(f)
+    col = ctx.prog.crate("jxl_color")
+
+    def aliases(g, seeds):
+        """locals of g that are the same slice reference as one of `seeds` (copies, reborrows)"""
+        out = set(seeds)
+        changed = True
+        while changed:
+            changed = False
+            for blk in g.blocks:
+                for st in blk[0]:
+                    if st[0] != "=" or len(st[1]) != 1 or st[1][0] in out:
+                        continue
+                    rv = st[2]
+                    src = None
+                    if rv[0] == "use":
+                        pl = op_place(rv[1])
+                        src = pl[0] if pl is not None and len(pl) == 1 else None
+                    elif rv[0] == "ref" and len(rv[2]) == 2 and rv[2][1] == "*":
+                        src = rv[2][0]
+                    elif rv[0] == "cast":
+                        pl = op_place(rv[2])
+                        src = pl[0] if pl is not None and len(pl) == 1 else None
+                    if src in out:
+                        out.add(st[1][0])
+                        changed = True
+        return out
+
+    def is_byte_place(pl):
+        return pl is not None and len(pl) == 3 and pl[1] == "*" and isinstance(pl[2], list) and pl[2][0] == "[c]"
+
+    def name_tests(g):
+        """slice locals of g whose bytes g switches on (directly, or in a helper of this crate it passes the slice to)"""
+        out = {}
+        for bb, blk in enumerate(g.blocks):
+            t = blk[1]
+            if t[0] == "switch" and is_byte_place(op_place(t[1])):
+                out.setdefault(op_place(t[1])[0], []).append(bb)
+            elif t[0] == "call" and callee(t) and g is f:
+                h = col.fn(callee(t).get("res") or callee(t)["fn"]) or col.fn(callee(t)["fn"])
+                if h is not None and h.path != g.path and h.local_ty(0) == "bool":
+                    inner = name_tests(h)
+                    for i, a in enumerate(t[2]):
+                        al = op_local(a)
+                        if al is not None and any(x in aliases(h, {i + 1}) for x in inner):
+                            out.setdefault(al, []).append(bb)
+        return out
+
     c20 = [b for b, blk in enumerate(f.blocks) for st in blk[0] if st[0] == "=" and st[1] == [tsz] and st[2][0] == "use" and op_const_int(st[2][1]) == 20]
     reach20 = {}
-    for b, blk in enumerate(f.blocks):
-        t = blk[1]
-        if t[0] == "switch":
-            pl = op_place(t[1])
-            if pl is not None and len(pl) == 3 and pl[1] == "*" and isinstance(pl[2], list) and pl[2][0] == "[c]":
-                # does this byte test lead (within a few blocks) to the `20` assignment?
-                frontier, seen_ = [b], set()
-                for _ in range(8):
-                    nxt = []
-                    for x in frontier:
-                        for y in f.succs(x):
-                            if y not in seen_:
-                                seen_.add(y)
-                                nxt.append(y)
-                    frontier = nxt
-                if any(x in seen_ for x in c20):
-                    reach20[pl[0]] = reach20.get(pl[0], 0) + 1
+    for l, bbs in name_tests(f).items():
+        for bb in bbs:
+            frontier, seen_ = [bb], set()
+            for _ in range(8):
+                nxt = []
+                for x in frontier:
+                    for y in f.succs(x):
+                        if y not in seen_:
+                            seen_.add(y)
+                            nxt.append(y)
+                frontier = nxt
+            if any(x in seen_ for x in c20):
+                reach20[l] = reach20.get(l, 0) + 1
     if not reach20:
         ctx.bad(rid, "implicit-size-by-name", "the implicit tag size 20 is no longer decided by examining the tag *name* (no test on the bytes of "
                 "the tag leads to it): a tag spelled with a raw name, or a shortcut code, gets a different size than the format defines", fn=f)
         return
-    tag = max(reach20, key=reach20.get)
+    tag0 = max(reach20, key=reach20.get)
+    # root of the alias class: the local every alias was copied from
+    root = tag0
+    for _ in range(6):
+        d = defs.single(root)
+        if d and d[2] == "assign":
+            rv = d[3][2]
+            pl = op_place(rv[1]) if rv[0] == "use" else (rv[2] if rv[0] == "ref" and len(rv[2]) == 2 and rv[2][1] == "*" else None)
+            if pl is not None and (len(pl) == 1 or rv[0] == "ref"):
+                root = pl[0]
+                continue
+        break
+    tagset = aliases(f, {root, tag0})
     # assignments of tagsize
     kinds = {}
     for b, blk in enumerate(f.blocks):
@@ -116,45 +166,78 @@ def rule_tagsize(ctx):
                     kinds[b] = "prev"
                 else:
                     kinds[b] = "explicit"
-    # the `command & 128` decision
+    # the `command & 128` decision (the flag may be tested where it is computed, or kept in a local and tested later)
     start = None
     for b, blk in enumerate(f.blocks):
         t = blk[1]
-        if t[0] != "switch":
+        if t[0] != "switch" or blk[2]:
             continue
-        l = op_local(t[1])
-        for st in blk[0]:
-            if st[0] == "=" and st[1] == [l] and st[2][0] == "bin" and st[2][1] in ("Ne", "Eq"):
-                other = [x for x in blk[0] if x[0] == "=" and x[2][0] == "bin" and x[2][1] == "BitAnd" and op_const_int(x[2][3]) == 128]
-                if other and (op_const_int(st[2][3]) == 0 or op_const_int(st[2][2]) == 0):
-                    zero = [x for v, x in t[2] if v == "0"]
-                    if zero:
-                        # Ne(..,0): '0' edge = flag clear ; Eq(..,0): '0' edge = flag set
-                        start = zero[0] if st[2][1] == "Ne" else t[3]
+        cur = op_local(t[1])
+        cmp_rv = None
+        for _ in range(5):
+            d = defs.single(cur) if cur is not None else None
+            if not d or d[2] != "assign":
+                break
+            rv = d[3][2]
+            if rv[0] == "use":
+                cur = op_local(rv[1])
+                continue
+            if rv[0] == "bin" and rv[1] in ("Ne", "Eq"):
+                cmp_rv = rv
+            break
+        if cmp_rv is None or not (op_const_int(cmp_rv[3]) == 0 or op_const_int(cmp_rv[2]) == 0):
+            continue
+        ml = op_local(cmp_rv[2]) if op_const_int(cmp_rv[3]) == 0 else op_local(cmp_rv[3])
+        md = defs.single(ml) if ml is not None else None
+        if not (md and md[2] == "assign" and md[3][2][0] == "bin" and md[3][2][1] == "BitAnd"
+                and 128 in (op_const_int(md[3][2][2]), op_const_int(md[3][2][3]))):
+            continue
+        zero = [x for v, x in t[2] if v == "0"]
+        if zero:
+            # Ne(..,0): '0' edge = flag clear ; Eq(..,0): '0' edge = flag set
+            start = zero[0] if cmp_rv[1] == "Ne" else t[3]
     if start is None or not kinds:
         ctx.anchor_missing(rid, "the explicit-size flag test (command & 128) in decode_icc")
         return
 
-    def outcomes(name):
+    def walk(g, start_b, tags, name, stops, level=0):
+        """labels reached from start_b with the bytes of the slice `tags` fixed to `name`: stops[block] labels, `return` (top level) or
+        `ret:<value>` (helper)"""
         seen = set()
         out = set()
-        work = [(start, ())]
+        work = [(start_b, ())]
+
+        def tag_byte(p):
+            if is_byte_place(p) and p[0] in tags and not p[2][3]:
+                i = p[2][1]
+                return name[i] if i < len(name) else None
+            return None
+
+        def opval(o, env):
+            k = op_const_int(o)
+            if k is not None:
+                return k
+            l = op_local(o)
+            if l is not None:
+                return env.get(l)
+            return tag_byte(op_place(o))
+
         while work:
             b, envt = work.pop()
             if (b, envt) in seen or len(seen) > 4000:
                 continue
             seen.add((b, envt))
-            if b in kinds:
-                out.add(kinds[b])
+            if b in stops:
+                out.add(stops[b])
                 continue
             env = dict(envt)
-            blk = f.blocks[b]
+            blk = g.blocks[b]
             for st in blk[0]:
                 if st[0] != "=" or len(st[1]) != 1:
                     continue
                 rv = st[2]
                 val = None
-                if rv[0] == "un" and rv[1] == "PtrMetadata" and op_local(rv[2]) == tag:
+                if rv[0] == "un" and rv[1] == "PtrMetadata" and op_local(rv[2]) in tags:
                     val = len(name)
                 elif rv[0] == "use":
                     val = op_const_int(rv[1])
@@ -163,11 +246,13 @@ def rule_tagsize(ctx):
                         if l is not None:
                             val = env.get(l)
                         else:
-                            p = op_place(rv[1])
-                            val = tag_byte(p, name)
+                            val = tag_byte(op_place(rv[1]))
+                elif rv[0] == "un" and rv[1] == "Not":
+                    x = opval(rv[2], env)
+                    val = None if x is None else int(not x)
                 elif rv[0] == "bin" and rv[1] in ("Eq", "Ne", "Lt", "Le", "Gt", "Ge"):
-                    x = opval(rv[2], env, name)
-                    y = opval(rv[3], env, name)
+                    x = opval(rv[2], env)
+                    y = opval(rv[3], env)
                     if x is not None and y is not None:
                         val = int({"Eq": x == y, "Ne": x != y, "Lt": x < y, "Le": x <= y, "Gt": x > y, "Ge": x >= y}[rv[1]])
                 if val is None:
@@ -175,9 +260,9 @@ def rule_tagsize(ctx):
                 else:
                     env[st[1][0]] = val
             t = blk[1]
-            et = tuple(sorted(env.items()))
             if t[0] == "switch":
-                v = opval(t[1], env, name)
+                v = opval(t[1], env)
+                et = tuple(sorted(env.items()))
                 if v is not None:
                     tgt = t[3]
                     for val, x in t[2]:
@@ -185,29 +270,34 @@ def rule_tagsize(ctx):
                             tgt = x
                     work.append((tgt, et))
                 else:
-                    for x in f.succs(b):
+                    for x in g.succs(b):
                         work.append((x, et))
             elif t[0] == "ret":
-                out.add("return")
+                out.add("return" if level == 0 else "ret:%s" % env.get(0))
+            elif t[0] == "call" and t[4] is not None:
+                dest = t[3][0] if t[3] and len(t[3]) == 1 else None
+                if dest is not None:
+                    env.pop(dest, None)
+                c = callee(t)
+                h = (col.fn(c.get("res") or c["fn"]) or col.fn(c["fn"])) if c else None
+                if h is not None and level < 2 and dest is not None and h.path != g.path and len(h.blocks) < 300:
+                    hargs = {i + 1 for i, a in enumerate(t[2]) if op_local(a) in tags}
+                    if hargs:
+                        rets = walk(h, 0, aliases(h, hargs), name, {}, level + 1)
+                        if len(rets) == 1:
+                            r = next(iter(rets))
+                            if r.startswith("ret:") and r[4:].isdigit():
+                                env[dest] = int(r[4:])
+                work.append((t[4], tuple(sorted(env.items()))))
             else:
-                for x in f.succs(b):
-                    work.append((x, et))
+                et = tuple(sorted(env.items()))
+                for x in g.succs(b):
+                    if not g.is_cleanup(x):
+                        work.append((x, et))
         return out
 
-    def tag_byte(p, name):
-        if p is not None and p[0] == tag and len(p) == 3 and p[1] == "*" and isinstance(p[2], list) and p[2][0] == "[c]" and not p[2][3]:
-            i = p[2][1]
-            return name[i] if i < len(name) else None
-        return None
-
-    def opval(o, env, name):
-        k = op_const_int(o)
-        if k is not None:
-            return k
-        l = op_local(o)
-        if l is not None:
-            return env.get(l)
-        return tag_byte(op_place(o), name)
+    def outcomes(name):
+        return walk(f, start, tagset, name, kinds)
 
     bad = []
     for nm in FIXED20 + OTHER_NAMES:
